@@ -284,7 +284,7 @@ def run(tier: str, seed: int) -> dict:
     stats = {"seqs": 0, "ok": 0, "refused": 0, "states": 0}
     if tier == "quick":
         plan = [("ih5", 0, 4), ("mf", 0, 4), ("ih5", 1, 4), ("mf", 1, 4)]
-        total, walks_budget = 50.0, 0.0
+        total, walks_budget = 70.0, 0.0
     else:
         # depth-4 scenarios first (equal shares), the depth-6 ones split what is left
         plan = [(c, h, 4) for h in (2, 3, 4, 5, 6, 7, 8) for c in ("ih5", "mf")] + [(c, h, 6) for h in (0, 1) for c in ("ih5", "mf")]
